@@ -60,6 +60,9 @@ def configs(prop, tier, rng):
     out.append(("n3.garbler", c3, 3, 0, [0, 1, 2], 2))
     if not q or prop in ("C03", "C04"):
         out.append(("n3.evaluator", c3, 3, 1, [0, 2], 1))
+    # every index takes the corrupted role once for n = 3 (checks that loop over "the other parties" are easily asymmetric)
+    if not q or prop == "C04":
+        out.append(("n3.first", c3, 3, 2, [1, 2], 0))
     return out
 
 
